@@ -184,12 +184,19 @@ def run_case(case):
         return out
     again = _run_case_once(case)
     mechs2 = {v['mech'] for v in again['viol']}
+    # the engine's own output for the very same call: does it differ between the two executions?
+    unstable = out.get('info', {}).get('engine_derivatives') != again.get('info', {}).get('engine_derivatives')
     kept, dropped = [], []
     for v in out['viol']:
-        (kept if (v['mech'] in mechs2 or any(k in v['mech'] for k in known_shapes)) else dropped).append(v)
+        if any(k in v['mech'] for k in known_shapes):
+            kept.append(v)
+        elif v['mech'] not in mechs2 or (unstable and ('hessian' in v['mech'] or 'bhhh' in v['mech'])):
+            dropped.append(v)
+        else:
+            kept.append(v)
     if dropped:
         kept.append({'mech': NOT_REPRODUCIBLE,
-                     'msg': 'mismatch seen once and not when the same case was executed again in the same process: '
+                     'msg': 'mismatch not reproducible: the engine output for the identical call differs between two executions of the case in one process, or the mismatch was not seen again: '
                             + '; '.join(sorted({v['mech'] for v in dropped})) + ' | first: ' + dropped[0]['msg'][:600],
                      'witness': dropped[0].get('witness')})
         out['cov']['derivative_mismatch_not_reproduced_on_reexecution'] = len(dropped)
@@ -292,6 +299,7 @@ def _run_case_once(case):
     if g.shape != (nrows, K) or h.shape != (nrows, K, K) or b.shape != (nrows, K, K):
         viol('derivative-shapes', f'shapes g{g.shape} h{h.shape} b{b.shape} for N={nrows} K={K}')
         return rec.out()
+    rec.info['engine_derivatives'] = [repr(g.tolist()), repr(h.tolist()), repr(b.tolist())]
     nonzero = float(np.max(np.abs(gref))) > 1e-12
     if nonzero:
         rec.key([spec['ast'], spec['shared'], spec['data'], spec['betas']])
